@@ -20,6 +20,22 @@ CHECKS = {
                 text="EvolventObj.tla models the object with its persistent scratch vector and NumPy arrays as heap objects (identity, dtype, contents); all call histories over a small alphabet are explored; the copying discipline of the repaired code is shown pure and three alternative disciplines (incl. the pinned tree's np.copy) are shown impure by counterexample. Every history TLC enumerates is replayed on the real Evolvent for N=1,2,3, plus long random histories; EvolventObjTrace.tla checks bit-exact memo consistency across calls, SetBounds and objects, that handed-out arrays never change or repeat, and that arguments are unmodified."),
 }
 
+SOLVER_NOTE = " Bound to the code by trace validation: the recorder is black-box (recording Problem wrapper, recording Listener, public getters); M, z*, all characteristics and the accuracy are recomputed by TLC in exact rational arithmetic from the recorded history (AGPCore.tla/AGPTrace.tla), never read from the solver."
+CHECKS.update({
+    "C02": dict(level="model_checking", design="4/C02", technique="TLC trace validation of every trial of recorded solver runs against the AGP decision rule recomputed exactly from the history (AGPTrace.tla)",
+                text="Every trial of every recorded run (random objectives incl. plateaus/steps/constants, N=1..5, r in (1,10], batches of DoGlobalIteration, refinement in the middle of a search, the repository's benchmark instances) must subdivide an interval whose exactly recomputed characteristic is maximal (within 2^-40 relative), at the rule's point, strictly inside, never at an existing point; the first trial at x=1/2." + SOLVER_NOTE),
+    "C03": dict(level="model_checking", design="4/C03", technique="TLC trace validation of stop timing, trial budget, counters and reported accuracy on an eps x itersLimit x entry-mode grid (AGPTrace.tla)",
+                text="On a grid of eps (incl. >= 1) x itersLimit (incl. 1, 2) x entry modes (fresh Solve, repeated Solve, DoGlobalIteration up to or past the budget, then Solve) the specification's stop predicate - recomputed from the history - must be false before every iteration made inside Solve and true when Solve returns; objective calls = reported trials <= budget; reported accuracy = smallest subdivided interval length; Solve returns without an internal exception." + SOLVER_NOTE),
+    "C04": dict(level="model_checking", design="4/C04", technique="TLC trace validation of the reported optimum after every public call and inside every listener callback, incl. interleaved solvers (AGPTrace.tla)",
+                text="After every public call, inside every OnEndIteration callback and in the returned Solution the best trial must be one of the evaluated points with the logged objective value at that point (also re-evaluated through the unwrapped objective), and no logged value may be smaller; objectives with many equal values, multi-iteration batches, several solvers alive and interleaved." + SOLVER_NOTE),
+    "C05": dict(level="model_checking", design="4/C05", technique="TLC trace validation of every objective call (global phase and Nelder-Mead refinement) against the box, exact comparisons (AGPTrace.tla)",
+                text="Every logged objective call of the global phase and of the local refinement must lie in the box (exact rational comparison per coordinate), the returned point too; with refinement the returned value must equal the objective re-evaluated at the returned point and must not exceed the best global trial; objectives with minima outside the box or on faces; failures injected during the local phase." + SOLVER_NOTE),
+    "C06": dict(level="model_checking", design="4/C06", technique="TLC trace validation of full public snapshots of the search information against the specification's record after every call/callback (AGPTrace.tla + EvolventQ.tla)",
+                text="A full public snapshot (iteration order, getters, links, GetCount) taken after every DoGlobalIteration call, inside every OnEndIteration callback, after Solve, after refinement, after a contained failure and while other solvers run is compared item by item with the record the specification keeps: strictly increasing x from 0 to 1, trials+2 items, consistent links, delta^N = x - x_left, stored point = evolvent image of x (recomputed from the exact digits), stored value = logged objective value in the trial's own holder." + SOLVER_NOTE),
+    "C20": dict(level="model_checking", design="4/C20", technique="TLC trace validation of every evaluated point against the cell-centre grid of the configured density (OnGrid clause, AGPTrace.tla/EvolventQ.tla)",
+                text="For evolventDensity 2..12 x dimension 2..5 (random boxes/objectives, solvers created in shuffled density order) every point passed to the objective must be lower + (2j+1)(upper-lower)/2^(m+1) for an integer j in range: a centre of the density-m grid is a centre of no other density, so both a coarser and a finer effective density are rejected." + SOLVER_NOTE),
+})
+
 NOT_YET = {
 }
 
